@@ -39,15 +39,19 @@ def run(ctx, proto, st=None, I=None):
         proto.post_ctor(I, st, o)
     out = [("__init__", o, mark0, len(I.events))]
     I._reader_changes = []
+    fitted_private = set()
     for meth, args, kwargs in proto.steps:
         m0 = len(I.events)
         # (a lazily computed cache going from None to its value is not a change of fitted state)
         before = {k: v.term for k, v in st.heap.get(o.obj.id, {}).items() if v.kind not in ("none", "undef")} if getattr(o, "obj", None) is not None else {}
         r = ctx.call_method(I, st, o, meth, *args, **kwargs)
         out.append((meth, r, m0, len(I.events)))
+        if meth in ("fit", "fit_transform") and getattr(o, "obj", None) is not None:
+            # private attributes that fit wrote (and the constructor did not) are fitted state as well
+            fitted_private |= {k for k, v in st.heap.get(o.obj.id, {}).items() if k.startswith("_") and k not in before and v.kind == "arr"}
         if meth not in ("fit", "fit_transform", "set_params", "partial_fit") and getattr(o, "obj", None) is not None:
             after = st.heap.get(o.obj.id, {})
-            changed = sorted(k for k, t in before.items() if k in after and after[k].term != t and k.endswith("_") and not k.startswith("_"))
+            changed = sorted(k for k, t in before.items() if k in after and after[k].term != t and ((k.endswith("_") and not k.startswith("_")) or (k.startswith("_") and not k.startswith("__") and k in fitted_private)))
             I._reader_changes.append((meth, changed))
     return I, st, o, out
 
@@ -88,6 +92,11 @@ def selector_protocols():
             for ttype in ("absolute", "relative"):
                 Xt_, yt_ = XY()
                 out.append(Proto(f"{pkg}.{cname}[{ttype} threshold]", f"skmatter.{pkg}_selection.{cname}", dict(ctor, score_threshold=scalar("thr"), score_threshold_type=ttype), [("fit", (Xt_, yt_), {}), ("fit", (Xt_, yt_), {"warm_start": True})], assume=assume_default, order=[("S", "<=", "M" if axis == 1 else "N")]))
+            # the other spellings of the requested count: a fraction of the candidates, everything (None)
+            for nm_, val_ in (("fraction", scalar("frac", 0, 1, False, True)), ("all", None)):
+                Xf_, yf_ = XY()
+                Xg_, yg_ = XY(sfx="2")
+                out.append(Proto(f"{pkg}.{cname}[n_to_select={nm_}]", f"skmatter.{pkg}_selection.{cname}", dict(kw, n_to_select=val_), [("fit", (Xf_, yf_), {}), ("fit", (Xg_, yg_), {})], assume=assume_default))
             if "FPS" in cname:
                 Xr_, yr_ = XY()
                 out.append(Proto(f"{pkg}.{cname}[initialize=random]", f"skmatter.{pkg}_selection.{cname}", dict(ctor, initialize="random"), [("fit", (Xr_, yr_), {}), ("fit", (Xr_, yr_), {})], assume=assume_default, order=[("S", "<=", "M" if axis == 1 else "N")]))
@@ -120,8 +129,12 @@ def decomposition_protocols():
     for solver in ("arpack", "randomized"):
         X, Y = XY()
         out.append(Proto(f"PCovR[{solver}]", "skmatter.decomposition.PCovR", {"mixing": scalar("alpha", 0, 1, True, True), "space": "feature", "n_components": integer("K"), "svd_solver": solver}, [("fit", (X, Y), {})], assume=assume_default, order=[("K", "<", "N"), ("K", "<", "M")]))
+    # the truncated solver with the route forced against the shape of the data
+    for space, rel in (("sample", ">"), ("feature", "<")):
+        X, Y = XY()
+        out.append(Proto(f"PCovR[arpack,space={space},N{rel}M]", "skmatter.decomposition.PCovR", {"mixing": scalar("alpha", 0, 1, True, True), "space": space, "n_components": integer("K"), "svd_solver": "arpack"}, [("fit", (X, Y), {})], assume=assume_default, order=[("K", "<", "N"), ("K", "<", "M"), ("N", rel, "M")]))
     X, Y = XY(y1d=True)
-    out.append(Proto("PCovR[1-D y]", "skmatter.decomposition.PCovR", {"mixing": scalar("alpha", 0, 1, True, True), "space": "feature", "n_components": integer("K"), "svd_solver": "full"}, [("fit", (X, Y), {}), ("predict", (arr("Xv", "V", "M"),), {})], assume=assume_default, order=[("K", "<=", "N"), ("K", "<=", "M")]))
+    out.append(Proto("PCovR[1-D y]", "skmatter.decomposition.PCovR", {"mixing": scalar("alpha", 0, 1, True, True), "space": "feature", "n_components": integer("K"), "svd_solver": "full"}, [("fit", (X, Y), {}), ("predict", (arr("Xv", "V", "M"),), {}), ("score", (arr("Xv2", "V", "M"), arr("Yv2", "V")), {})], assume=assume_default, order=[("K", "<=", "N"), ("K", "<=", "M")]))
     # a single target given as a vector, crossed with the route and the regressor kind
     for space in ("feature", "sample"):
         for reg in ("default", "precomputed", "precomputedW"):
@@ -134,7 +147,7 @@ def decomposition_protocols():
                 ctor["regressor"] = "precomputed"
                 if reg.endswith("W"):
                     fit_kw = {"W": arr("W", "M")}
-            out.append(Proto(f"PCovR[1-D y,{space},{reg}]", "skmatter.decomposition.PCovR", ctor, [("fit", (X, Y), fit_kw), ("predict", (arr("Xv", "V", "M"),), {})], assume=assume_default, order=[("K", "<=", "N"), ("K", "<=", "M")]))
+            out.append(Proto(f"PCovR[1-D y,{space},{reg}]", "skmatter.decomposition.PCovR", ctor, [("fit", (X, Y), fit_kw), ("predict", (arr("Xv", "V", "M"),), {}), ("score", (arr("Xv2", "V", "M"), arr("Yv2", "V")), {})], assume=assume_default, order=[("K", "<=", "N"), ("K", "<=", "M")]))
     for center in (False, True):
         for reg in ("default", "precomputed"):
             X, Y = XY()
@@ -223,7 +236,7 @@ def other_class_protocols():
             if mode == "fspread":
                 ctor["fspread"] = scalar("fspread", 0, None, True, True)
                 ctor["fpoints"] = -1.0
-            out.append(Proto(f"SparseKDE[cell={cell},{mode}]", "skmatter.neighbors.SparseKDE", ctor, [("fit", (G,), {}), ("score_samples", (arr("Q", "Qn", "F"),), {}), ("score", (arr("Q2", "Qn", "F"),), {})], assume=assume_default))
+            out.append(Proto(f"SparseKDE[cell={cell},{mode}]", "skmatter.neighbors.SparseKDE", ctor, [("fit", (G,), {}), ("score_samples", (arr("Q", "Qn", "F"),), {}), ("score", (arr("Q2", "Qn", "F"),), {}), ("sample", (integer("ns"),), {"random_state": scalar("random_state")}), ("score_samples", (arr("Q3", "Qn", "F"),), {})], assume=assume_default))
     for mode in ("cutoff", "gabriel"):
         for cell in (False, True):
             X = arr("X", "N", "F")
